@@ -2,7 +2,7 @@
  * Serves C02 (factor identity, pivot bounds), C03 (structure), C04 (exact singularity), C10 side checks.
  * args: m n pattern colperm permidx symmode panel relax maxsuper rowblk colblk fill umode flags
  *   colperm: 0 NATURAL 1 MMD_ATA 2 MMD_AT_PLUS_A 3 COLAMD 4 MY_PERMC(permidx)
- *   umode  : 0 u=1.0  1 u symbolic in (0,1]  2 u=0.5  3 u=0.0 (documented as legal "diagonal pivoting")
+ *   umode  : 0 u=1.0  1 u symbolic in [0,1]  2 u=0.5  3 u=0.0 (documented as legal "diagonal pivoting")
  *   flags  : bit0 assume strict column diagonal dominance; bit1 pattern is structurally singular (info=0 forbidden)
  *   symcols: bitmask of symbolic columns (default all); other columns hold fixed generic concrete values
  *   lwork  : 0 library allocation; > 0 caller workspace of exactly lwork bytes inside a guarded arena (C08); woff: 0 / 4 byte misalignment
@@ -20,7 +20,7 @@ int main(int argc, char **argv) {
   symmat_t S; symmat_build_cols(&S, m, n, pat, "a", symcols);
   if (flags & 1) symmat_assume_coldom(&S);
   real_t u = 1;
-  if (umode == 1) { u = SYMREAL("u"); slusym_assume_cmp(2, (double)u, 0.0); slusym_assume_cmp(5, (double)u, 1.0); } else if (umode == 2) u = 0.5; else if (umode == 3) u = 0;
+  if (umode == 1) { u = SYMREAL("u"); slusym_assume_cmp(3, (double)u, 0.0); slusym_assume_cmp(5, (double)u, 1.0); } else if (umode == 2) u = 0.5; else if (umode == 3) u = 0;   /* documented range of DiagPivotThresh is [0,1] */
 
   SuperMatrix A, AC, L, U; superlu_options_t opt; SuperLUStat_t stat; GlobalLU_t Glu;
   set_default_options(&opt); opt.SymmetricMode = symmode ? YES : NO; opt.DiagPivotThresh = (double)u;   /* field is double in all precisions */
@@ -52,7 +52,8 @@ int main(int argc, char **argv) {
   if (info == 0 && pcok) {
     if (flags & 2) slusym_assert_true(0, "C04.structurally-singular-must-be-reported");
     int prok = h_is_perm(perm_r, m); slusym_assert_true(prok, "C02.perm_r.bijection");
-    if (prok && h_validate_LU(&L, &U, m, n, 0, &DL, &DU, "C03")) {
+    int vok = h_validate_LU(&L, &U, m, n, 0, &DL, &DU, "C03");    /* the structure clauses do not depend on perm_r being complete */
+    if (prok && vok) {
       h_permuted(&S.D, perm_r, perm_c, &B);
       h_assert_LU_eq(&DL, &DU, &B, n, m, "C02.LU=PrAPc");
       for (int j = 0; j < n; j++) e_assert_nonzero(DU.a[j][j], "C02.Udiag.nonzero");
